@@ -27,6 +27,36 @@ def gen_with(rng, pred, **force) -> Dict[str, Any]:
     raise RuntimeError("generator could not satisfy the predicate")
 
 
+def many_ranks(rng, case: Dict[str, Any]) -> Dict[str, Any]:
+    """Grow a case to nine to eleven ranks (beyond eight the loader sizes its process pool by a profiling parse of the
+    first file) and send it through the real constructor with the directory only. The added ranks are copies of the
+    generated ones with a rank-specific tail (a host operator, a launch and a kernel after everything else), so that
+    no two ranks have the same content."""
+    import copy
+    base = sorted(case["ranks"])
+    want = rng.choice([9, 10, 11])
+    k = 0
+    while len(case["ranks"]) < want:
+        src = base[k % len(base)]
+        new = max(case["ranks"]) + 1
+        ev = copy.deepcopy(case["ranks"][src])
+        xs = [e for e in ev if isinstance(e, dict) and e.get("ph") == "X" and "dur" in e]
+        host = next((e for e in xs if e.get("cat") == "cpu_op"), None)
+        dev = next((e for e in xs if e.get("cat") == "kernel" and isinstance((e.get("args") or {}).get("stream"), int)), None)
+        if host is not None:
+            t = max(e["ts"] + e["dur"] for e in xs) + 5
+            ev.append({"ph": "X", "cat": "cpu_op", "name": f"aten::tail_r{new}", "pid": host["pid"], "tid": host["tid"], "ts": t, "dur": 10 + new})
+            if dev is not None:
+                corr = 7000000 + new
+                ev.append({"ph": "X", "cat": "cuda_runtime", "name": "cudaLaunchKernel", "pid": host["pid"], "tid": host["tid"], "ts": t + 1, "dur": 2, "args": {"correlation": corr}})
+                ev.append({"ph": "X", "cat": "kernel", "name": f"tail_kernel_r{new}", "pid": dev["pid"], "tid": dev["tid"], "ts": t + 4, "dur": 3 + new,
+                           "args": {"correlation": corr, "stream": dev["args"]["stream"]}})
+        case["ranks"][new] = ev
+        k += 1
+    case["ctor"] = "dir"
+    return case
+
+
 PRE_CALLS = ["temporal_breakdown", "kernel_breakdown", "idle_time", "comm_comp_overlap", "queue_length_series", "queue_length_summary",
              "memory_bw_series", "memory_bw_summary", "launch_stats", "launch_stats_mem", "call_graph", "user_annotation_breakdown"]
 
@@ -81,6 +111,7 @@ def load_case(case: Dict[str, Any], **kw):
     ta.t._verif_file_names = {int(r): {i: (str(e.get("name", "")), str(e.get("cat"))) for i, e in enumerate(ev)
                                        if isinstance(e, dict) and "dur" in e and e.get("cat") is not None}
                               for r, ev in case["ranks"].items()}
+    htaio.check_frames_match_files(ta.t, case["ranks"])
     disturb(ta, case.get("pre"))
     return ta, files
 
